@@ -675,7 +675,8 @@ def serverShapeOK (d : Doc) : Bool :=
   else true
 
 def serverOKCode (T : Table) (o : Opts) (d : Doc) : Bool :=
-  if !serverShapeOK d then false else checkExt T o d
+  if d.attrs.flag "null" then false          -- `Servers.Validate`: a null entry (6bd2b91)
+  else if !serverShapeOK d then false else checkExt T o d
 
 def componentPositions : List String :=
   ["schemas", "parameters", "requestBodies", "responses", "headers", "securitySchemes", "examples", "links", "callbacks"]
@@ -720,11 +721,13 @@ def localOK (T : Table) (o : Opts) (d : Doc) (vs : List Bool) : Bool :=
   | .securityScheme => securitySchemeOKCode T o d
   | .oauthFlow => oauthFlowOKCode T o d
   | .server => serverOKCode T o d
-  | .serverVar => if a.str "default" = "" then false else checkExt T o d
+  | .serverVar => if a.flag "null" then false          -- `Server.Validate`: a null variable (6bd2b91)
+                  else if a.str "default" = "" then false else checkExt T o d
+  | .tag => if a.flag "null" then false else checkExt T o d          -- `Tags.Validate`: a null entry (6bd2b91)
   | .externalDocs => if a.str "url" = "" then false else checkExt T o d
   | .content | .securityReqs | .securityReq | .servers | .tags => true
   | .encoding => encodingOKCode T o d vs
-  | .contact | .pathItem | .callback | .oauthFlows | .tag | .discriminator | .xml => checkExt T o d
+  | .contact | .pathItem | .callback | .oauthFlows | .discriminator | .xml => checkExt T o d
 
 /-- model of `(*T).Validate` with the given options -/
 def validate (T : Table) (o : Opts) (d : Doc) : Bool := descend (localOK T o) (active T o) d
@@ -834,12 +837,13 @@ def violations (d : Doc) : List Viol :=
       when (a.str "operationId" != "" && a.str "operationRef" != "") "linkBothTargets" ++ extraViols a
   | .securityScheme => when (!securitySchemeShapeOK d) "illFormedSecurityScheme" ++ extraViols a
   | .oauthFlow => when (!oauthFlowShapeOK d) "illFormedFlow" ++ extraViols a
-  | .server => when (!serverShapeOK d) "illFormedServer" ++ extraViols a
-  | .serverVar => when (a.str "default" = "") "missingDefault" ++ extraViols a
+  | .server => when (a.flag "null") "nullEntry" ++ when (!serverShapeOK d) "illFormedServer" ++ extraViols a
+  | .serverVar => when (a.flag "null") "nullEntry" ++ when (a.str "default" = "") "missingDefault" ++ extraViols a
+  | .tag => when (a.flag "null") "nullEntry" ++ extraViols a
   | .externalDocs => when (a.str "url" = "") "missingUrl" ++ extraViols a
   | .content | .securityReqs | .securityReq | .servers | .tags => []
   | .encoding => when (!encodingStyleOK a) "badStyle" ++ extraViols a
-  | .contact | .pathItem | .callback | .oauthFlows | .tag | .discriminator | .xml => extraViols a
+  | .contact | .pathItem | .callback | .oauthFlows | .discriminator | .xml => extraViols a
 
 /-- the node satisfies every rule that is in force -/
 def rulesOK (o : Opts) (d : Doc) : Bool := (violations d).all (fun v => !enabled o v)
